@@ -257,6 +257,14 @@ func init() {
 				GetOut:    map[string]int{"ok": 10, "notfound": 2, "err": 1, "timeout": 2},
 				CallOut:   map[string]int{"result": 6, "resource": 4, "err": 2, "timeout": 1, "null": 1},
 			},
+			// requests outstanding on trees with several references still loading,
+			// unsubscribed, revoked or deleted underneath them
+			{Name: "c07-graphs", MinOps: 8, MaxOps: 40, MaxConns: 2, Versions: stdVersions, Graph: true,
+				W:         weightsWith(map[string]int{"badreq": 0, "call": 6, "auth": 0, "new": 2, "get": 8, "delete": 3, "reaccess": 2, "token": 1, "unsubscribe": 20, "subscribe": 20, "mutate": 6, "answer": 30}),
+				AccessOut: map[string]int{"grant": 14, "deny": 2, "denied": 1, "timeout": 1},
+				GetOut:    map[string]int{"ok": 12, "notfound": 1, "timeout": 1},
+				CallOut:   map[string]int{"result": 3, "resource": 8, "err": 1},
+			},
 			// requests that wait on access checks queued in a reset throttle
 			{Name: "c07-throttled", MinOps: 8, MaxOps: 45, MaxConns: 2, Versions: stdVersions, Throttle: true,
 				W:         weightsWith(map[string]int{"badreq": 1, "call": 12, "auth": 1, "new": 2, "delete": 1, "reaccess": 3, "token": 2, "unsubscribe": 14, "sysreset": 4, "throtburst": 10, "subscribe": 18, "trigburst": 4}),
@@ -267,6 +275,9 @@ func init() {
 			},
 		},
 		Config: func(t *rapid.T, p *Profile) WorldConfig {
+			if p.Graph {
+				return graphConfig(t, p)
+			}
 			cfg := stdConfig(t, p)
 			if p.Throttle {
 				cfg.ResetThrottle = rapid.IntRange(1, 2).Draw(t, "resetthrottle")
@@ -378,10 +389,19 @@ func graphConfig(t *rapid.T, p *Profile) WorldConfig {
 	names = names[:n]
 	targets := append(append([]string{}, names...), "t.m", "t.q?a=1")
 	var defs []ResDef
+	cur := 0 // index of the resource being defined
 	val := func(label string) Val {
 		k := rapid.IntRange(0, 9).Draw(t, label)
+		if p.Dense && k >= 5 && k < 9 {
+			k = 0
+		}
 		switch {
 		case k < 4:
+			if p.Acyclic {
+				// forward references only: names after the current one, or a leaf
+				fwd := append(append([]string{}, names[cur+1:]...), "t.m", "t.q?a=1")
+				return Ref(fwd[rapid.IntRange(0, len(fwd)-1).Draw(t, label+"t")])
+			}
 			return Ref(targets[rapid.IntRange(0, len(targets)-1).Draw(t, label+"t")])
 		case k < 5:
 			return Soft(targets[rapid.IntRange(0, len(targets)-1).Draw(t, label+"t")])
@@ -391,9 +411,13 @@ func graphConfig(t *rapid.T, p *Profile) WorldConfig {
 			return Prim(fmt.Sprint(rapid.IntRange(0, 3).Draw(t, label+"p")))
 		}
 	}
-	for _, name := range names {
+	for i, name := range names {
+		cur = i
 		if rapid.IntRange(0, 2).Draw(t, "iscoll") == 0 {
 			k := rapid.IntRange(0, 3).Draw(t, "clen")
+			if p.Dense && k < 2 {
+				k = 2
+			}
 			var c []Val
 			for i := 0; i < k; i++ {
 				c = append(c, val("cv"))
@@ -401,7 +425,11 @@ func graphConfig(t *rapid.T, p *Profile) WorldConfig {
 			defs = append(defs, ResDef{Name: name, Type: "collection", Coll: c})
 		} else {
 			m := map[string]Val{}
-			for _, key := range []string{"a", "b", "r"}[:rapid.IntRange(0, 3).Draw(t, "mlen")] {
+			mlen := rapid.IntRange(0, 3).Draw(t, "mlen")
+			if p.Dense && mlen < 2 {
+				mlen = 2
+			}
+			for _, key := range []string{"a", "b", "r"}[:mlen] {
 				m[key] = val("mv")
 			}
 			defs = append(defs, ResDef{Name: name, Type: "model", Model: m})
@@ -414,7 +442,7 @@ func graphConfig(t *rapid.T, p *Profile) WorldConfig {
 	} else {
 		defs = append(defs, ResDef{Name: "t.q", Type: "collection", Coll: []Val{Prim("1"), Prim("2")}, QueryMap: qm})
 	}
-	cfg := WorldConfig{Resources: defs, Protocol: p.Protocol}
+	cfg := WorldConfig{Resources: defs, Protocol: p.Protocol, PreciseRetention: p.Acyclic}
 	if p.Throttle {
 		cfg.ReferenceThrottle = rapid.IntRange(0, 2).Draw(t, "refthrottle")
 		cfg.ResetThrottle = rapid.IntRange(0, 2).Draw(t, "resetthrottle")
@@ -458,8 +486,26 @@ func init() {
 		Trigger:  triggerData,
 	})
 	register(&SimProp{
-		ID:       "C02",
-		Profiles: []*Profile{dataProfile("c02-graphs", map[string]int{"unsubscribe": 14, "mutate": 22, "custom": 2, "get": 6, "refburst": 5}), dataProfile("c02-general", nil)},
+		ID: "C02",
+		Profiles: []*Profile{dataProfile("c02-graphs", map[string]int{"unsubscribe": 14, "mutate": 22, "custom": 2, "get": 6, "refburst": 5}), dataProfile("c02-general", nil),
+			func() *Profile {
+				// many paths to the same child: the reference collector's counting
+				p := dataProfile("c02-dense", map[string]int{"gcburst": 10, "subscribe": 22, "unsubscribe": 14, "get": 4, "mutate": 10, "refburst": 4, "custom": 1, "answer": 26, "silent": 0, "sysreset": 1, "qmutate": 0, "qevent": 0, "httpget": 0, "close": 0})
+				p.Dense, p.MaxConns = true, 2
+				return p
+			}(),
+			func() *Profile {
+				// acyclic graphs (diamonds, shared children) without events: here the
+				// collector is expected to be exact, and only the precise condition of
+				// the in-flight retention finding is excused
+				p := dataProfile("c02-acyclic", map[string]int{"gcburst": 12, "subscribe": 24, "unsubscribe": 18, "get": 5, "answer": 30, "call": 2, "new": 0,
+					"mutate": 0, "refburst": 0, "custom": 0, "silent": 0, "sysreset": 0, "qmutate": 0, "qevent": 0, "httpget": 0, "close": 0, "delete": 0, "reaccess": 0, "token": 0})
+				p.Dense, p.Acyclic, p.MaxConns, p.Throttle, p.Prologue = true, true, 2, false, 0
+				p.AccessOut = map[string]int{"grant": 1}
+				p.GetOut = map[string]int{"ok": 1}
+				p.CallOut = map[string]int{"resource": 4, "result": 1}
+				return p
+			}()},
 		Config:   graphConfig,
 		Monitors: func() []Monitor { return []Monitor{NewMonC02()} },
 		Trigger:  triggerData,
@@ -542,8 +588,44 @@ func triggerData(w *World, v Violation) string {
 			}
 		}
 	}
+	// unsend after events: some resource of this connection was handed to the
+	// client a second time (after the client had dropped it while a request was
+	// outstanding) although events for it had reached the gateway since its first
+	// snapshot. The re-sent snapshot is the first one, and an event that was
+	// being processed (a reference still loading) is not accounted for: from here
+	// on what the gateway believes it has sent is not what the client holds.
+	for _, h := range c.Ref.Handovers {
+		if !h.Fresh || h.T > v.T {
+			continue
+		}
+		for _, d := range c.Ref.DropLog {
+			if d.RID == h.RID && d.T < h.T && outstandingAcross(c, d.T) && stateEventBefore(w, c, h.RID, h.T) {
+				return "unsend-stale-snapshot"
+			}
+		}
+	}
+	// unsend, seen as a dangling reference: the holder was handed again (after the
+	// client had dropped it while a request was outstanding) with its first
+	// snapshot, which names a reference that an event has removed since.
+	if v.Class == "dangling_reference" && v.Other != "" {
+		for _, h := range c.Ref.Handovers {
+			if h.RID != v.RID || !h.Fresh || h.T > v.T {
+				continue
+			}
+			for _, d := range c.Ref.DropLog {
+				if d.RID == v.RID && d.T < h.T && outstandingAcross(c, d.T) {
+					return "unsend-stale-snapshot"
+				}
+			}
+		}
+	}
 	// in-flight retention: the client dropped the resource while a request for
-	// it was in flight on the connection
+	// a resource X it had already been sent (subscribe or get of X, or a request
+	// answered with X) was in flight on the connection, and the dropped resource
+	// is X or was reachable from X: X's direct count stops the collector, which
+	// leaves X and everything below it in the sent state. (A resource kept only
+	// by a parent that is still loading and was never sent is handled correctly
+	// - issue #241 - and is not excused.)
 	target := v.RID
 	if v.Other != "" {
 		target = v.Other
@@ -554,8 +636,16 @@ func triggerData(w *World, v Violation) string {
 			if d.RID != target || d.T > v.T || d.Cause == "get" {
 				continue
 			}
-			if outstandingAcross(c, d.T) {
+			// Several genuine defects overlap where the client drops resources while
+			// requests are outstanding (this one, unsend-stale-snapshot, cycles kept
+			// by a loading parent, revocation in flight): in general histories the
+			// whole region is excused; in acyclic, event-free histories
+			// (PreciseRetention) only the exact condition of this finding is.
+			if (w.Cfg.PreciseRetention && retainedByInflight(c, target, d.T)) || (!w.Cfg.PreciseRetention && outstandingAcross(c, d.T)) {
 				return "inflight-retention"
+			}
+			if outstandingAcross(c, d.T) && belowDroppedCycle(c, target, d.T) {
+				return "sent-cycle-kept-by-loading-parent"
 			}
 		}
 	}
@@ -577,6 +667,129 @@ func outstandingAcross(c *Client, t int) bool {
 	for _, id := range c.Ref.ReqOrder {
 		q := c.Ref.Reqs[id]
 		if q.SentT < t && (q.Resp == 0 || q.RespT > t) && q.Action != "unsubscribe" && q.Action != "version" {
+			return true
+		}
+	}
+	return false
+}
+
+// retainedByInflight: see the in-flight retention trigger. X must itself have
+// been dropped by the client (at t or before, while its request was in flight);
+// reachability follows the references the client's copies had when dropped.
+func retainedByInflight(c *Client, target string, t int) bool {
+	last := map[string]DropRec{}
+	for _, d := range c.Ref.DropLog {
+		if d.T <= t {
+			last[d.RID] = d
+		}
+	}
+	for x, dx := range last {
+		if !outstandingFor(c, x, dx.T) {
+			continue
+		}
+		seen := map[string]bool{x: true}
+		stack := []string{x}
+		for len(stack) > 0 {
+			r := stack[len(stack)-1]
+			stack = stack[:len(stack)-1]
+			if r == target {
+				return true
+			}
+			for _, ref := range last[r].Refs {
+				if !seen[ref] {
+					seen[ref] = true
+					stack = append(stack, ref)
+				}
+			}
+		}
+	}
+	return false
+}
+
+// belowDroppedCycle: among the resources the client dropped at log time t, the
+// target lies on a reference cycle or below one. The collector unsends a kept
+// resource only when no sent parent is left; the members of a cycle keep each
+// other "sent" although only a parent that is still loading holds the cycle.
+func belowDroppedCycle(c *Client, target string, t int) bool {
+	refs := map[string][]string{}
+	for _, d := range c.Ref.DropLog {
+		if d.T == t {
+			refs[d.RID] = d.Refs
+		}
+	}
+	reach := func(from string) map[string]bool {
+		seen := map[string]bool{}
+		stack := append([]string{}, refs[from]...)
+		for len(stack) > 0 {
+			r := stack[len(stack)-1]
+			stack = stack[:len(stack)-1]
+			if seen[r] {
+				continue
+			}
+			if _, dropped := refs[r]; !dropped {
+				continue
+			}
+			seen[r] = true
+			stack = append(stack, refs[r]...)
+		}
+		return seen
+	}
+	for n := range refs {
+		r := reach(n)
+		if r[n] && (n == target || r[target]) {
+			return true
+		}
+	}
+	return false
+}
+
+// stateEventBefore reports whether a change/add/remove event for rid's resource
+// reached the gateway before log time t.
+func stateEventBefore(w *World, c *Client, rid string, t int) bool {
+	name, _ := w.expandRID(c, rid)
+	for _, e := range w.Log() {
+		if e.T >= t {
+			break
+		}
+		if e.Kind == "mq_ev" && (e.Subject == "event."+name+".change" || e.Subject == "event."+name+".add" || e.Subject == "event."+name+".remove") {
+			return true
+		}
+	}
+	return false
+}
+
+// referenceRemovedSince: the service no longer lists ref among holder's
+// references (an event removed it), so a snapshot naming it is a stale one.
+func referenceRemovedSince(w *World, c *Client, holder, ref string) bool {
+	name, q := w.expandRID(c, holder)
+	d := w.Svc.defFor(name, w.CIDs())
+	if d == nil {
+		return false
+	}
+	v := w.Svc.variant(d, name, q)
+	for _, x := range v.AModel {
+		if (x.K == 'r') && x.R == ref {
+			return false
+		}
+	}
+	for _, x := range v.AColl {
+		if (x.K == 'r') && x.R == ref {
+			return false
+		}
+	}
+	return true
+}
+
+// outstandingFor reports whether a request for rid itself - a subscribe or get
+// of it, or a request whose resource response names it - was sent before log
+// time t and not answered before t.
+func outstandingFor(c *Client, rid string, t int) bool {
+	for _, id := range c.Ref.ReqOrder {
+		q := c.Ref.Reqs[id]
+		if q.SentT >= t || (q.Resp > 0 && q.RespT <= t) {
+			continue
+		}
+		if ((q.Action == "subscribe" || q.Action == "get") && q.RID == rid) || q.ResRID == rid {
 			return true
 		}
 	}
